@@ -102,8 +102,12 @@ func (st *pathState) pickNext() *gor {
 		return nil
 	}
 	k := 0
-	if st.explore && len(st.runq) > 1 {
+	if st.explore && len(st.runq) > 1 && st.schedSteps < st.schedBudget {
+		// a deviation from the FIFO order costs one unit of the deviation budget
 		k = st.chooseFree(len(st.runq))
+		if k != 0 {
+			st.schedSteps++
+		}
 	}
 	g := st.runq[k]
 	st.runq = append(st.runq[:k:k], st.runq[k+1:]...)
@@ -146,23 +150,33 @@ func (st *pathState) yield(g *gor) {
 	st.switchFrom(g)
 }
 
-// visible is called after each visible operation in exploring mode: any
-// runnable goroutine (including the current one) may continue.
+// visible is called after each visible operation (channel op, select, lock,
+// atomic). In exploring mode the current goroutine may be preempted here in
+// favour of any other runnable one, as long as the deviation budget lasts:
+// the default schedule is the cooperative FIFO one, and every schedule that
+// differs from it in at most schedBudget scheduling decisions is explored.
 func (st *pathState) visible(g *gor) {
-	if !st.explore || len(st.runq) == 0 {
+	if !st.explore || len(st.runq) == 0 || st.schedSteps >= st.schedBudget {
 		return
 	}
-	if st.schedBudget > 0 && st.schedSteps >= st.schedBudget {
+	k := st.chooseFree(1 + len(st.runq))
+	if k == 0 {
 		return
 	}
 	st.schedSteps++
-	if st.stateHook != nil {
-		st.stateHook(g)
-	}
-	// put g at the front so that choice 0 = "keep running"
+	next := st.runq[k-1]
+	st.runq = append(st.runq[:k-1:k-1], st.runq[k:]...)
+	next.inRunq = false
+	// g stays runnable, at the back of the queue
 	g.inRunq = true
-	st.runq = append([]*gor{g}, st.runq...)
-	st.switchFrom(g)
+	st.runq = append(st.runq, g)
+	st.cur = next
+	next.wake <- struct{}{}
+	<-g.wake
+	if st.dead {
+		panic(killedAbort{})
+	}
+	st.cur = g
 }
 
 func (st *pathState) killAll(self *gor) {
@@ -593,6 +607,7 @@ func (st *pathState) mutexUnlock(fr *frame, p *value, read bool) {
 		st.ready(g)
 	}
 	st.visible(fr.g)
+	st.yield(fr.g) // a loop that only locks and unlocks must not starve the others
 }
 
 func (st *pathState) wgAdd(fr *frame, p *value, d int) {
